@@ -42,7 +42,7 @@ Next ==
   \/ "rename_state" \in Ops /\ \E o \in Existing : Do("rename_state", o, o, 0)
   \/ "move_state" \in Ops /\ \E n \in Existing, p \in Existing : Do("move_state", n, p, 0)
   \/ "add_transition" \in Ops /\ Len(T.trans) < MaxTrans
-       /\ \E s \in Existing, t \in T.names \cup {0, Unk}, e \in {0, 1} : Do("add_transition", Tr(s, t, e), 0, 0)
+       /\ \E s \in Existing, t \in T.names \cup {0, Unk}, e \in {0, 1, 11} : Do("add_transition", Tr(s, t, e), 0, 0)
   \/ "remove_transition" \in Ops /\ \E tr \in Range(T.trans) \cup {Tr(SomeName, 0, 7)} : Do("remove_transition", tr, 0, 0)
   \/ "rotate_transition" \in Ops
        /\ \E tr \in Range(T.trans) \cup {Tr(SomeName, 0, 7)}, ns \in T.names \cup {Unk, NoChange},
